@@ -238,6 +238,10 @@ class C17(vlib.Check):
         """the ST::string holds the token std::basic_string took, subject to the default validation"""
         if not impl.startswith('OK '):
             return False
+        if ' seqtok=' in impl:
+            # in a sequence of extractions from one stream (a field width set, skipws off) a token differs from the one
+            # std::basic_string extraction takes at the same point
+            return False
         f = dict(x.split('=', 1) for x in impl.split()[1:])
         if f.get('tokend') != 'ok':
             return False
